@@ -8,8 +8,10 @@ package verifharness
 import (
 	"bufio"
 	"bytes"
+	"crypto/tls"
 	"encoding/json"
 	"fmt"
+	"net"
 	"os"
 	"runtime"
 	"strings"
@@ -82,7 +84,69 @@ func (p *scriptedPeer) arrive(answerN func(n int)) (n int) {
 	return n
 }
 
+// peerFaults: connection-level misbehaviour of the scripted peers (C18): every SlowEvery-th connection to the rating
+// peer is held for SlowDelay before its first octet is read (TLS and CER/CEA complete late); every DropEvery-th
+// connection to the account peer is closed by the peer right after the capabilities exchange.
+type peerFaults struct {
+	SlowEvery int
+	SlowDelay time.Duration
+	DropEvery int
+}
+
+type slowConn struct {
+	net.Conn
+	once  sync.Once
+	delay time.Duration
+}
+
+func (c *slowConn) Read(b []byte) (int, error) {
+	c.once.Do(func() { time.Sleep(c.delay) })
+	return c.Conn.Read(b)
+}
+
+type slowListener struct {
+	net.Listener
+	mu    sync.Mutex
+	n     int
+	every int
+	delay time.Duration
+}
+
+func (l *slowListener) Accept() (net.Conn, error) {
+	c, err := l.Listener.Accept()
+	if err != nil {
+		return c, err
+	}
+	l.mu.Lock()
+	l.n++
+	slow := l.every > 0 && l.n%l.every == 0
+	l.mu.Unlock()
+	if slow {
+		return &slowConn{Conn: c, delay: l.delay}, nil
+	}
+	return c, nil
+}
+
+func serveTLSOn(addr, pem, key string, h diam.Handler, wrap func(net.Listener) net.Listener) error {
+	cert, err := tls.LoadX509KeyPair(pem, key)
+	if err != nil {
+		return err
+	}
+	ln, err := net.Listen("tcp", addr)
+	if err != nil {
+		return err
+	}
+	if wrap != nil {
+		ln = wrap(ln)
+	}
+	return diam.Serve(tls.NewListener(ln, &tls.Config{Certificates: []tls.Certificate{cert}}), h)
+}
+
 func startScriptedPeers(addrRf, addrAb, pem, key string) (rfp, abp *scriptedPeer) {
+	return startScriptedPeersF(addrRf, addrAb, pem, key, nil)
+}
+
+func startScriptedPeersF(addrRf, addrAb, pem, key string, faults *peerFaults) (rfp, abp *scriptedPeer) {
 	_ = dict.Default.Load(bytes.NewReader([]byte(charging_dict.RateDictionary)))
 	_ = dict.Default.Load(bytes.NewReader([]byte(charging_dict.AbmfDictionary)))
 	settings := &sm.Settings{OriginHost: "server", OriginRealm: "go-diameter", VendorID: 13, ProductName: "go-diameter", FirmwareRevision: 1}
@@ -141,8 +205,30 @@ func startScriptedPeers(addrRf, addrAb, pem, key string) (rfp, abp *scriptedPeer
 			_, _ = a.WriteTo(c)
 		})
 	})
-	go func() { _ = diam.ListenAndServeTLS(addrRf, pem, key, rmux, nil) }()
-	go func() { _ = diam.ListenAndServeTLS(addrAb, pem, key, amux, nil) }()
+	if faults == nil {
+		go func() { _ = diam.ListenAndServeTLS(addrRf, pem, key, rmux, nil) }()
+		go func() { _ = diam.ListenAndServeTLS(addrAb, pem, key, amux, nil) }()
+		return rfp, abp
+	}
+	go func() {
+		_ = serveTLSOn(addrRf, pem, key, rmux, func(l net.Listener) net.Listener {
+			return &slowListener{Listener: l, every: faults.SlowEvery, delay: faults.SlowDelay}
+		})
+	}()
+	go func() { _ = serveTLSOn(addrAb, pem, key, amux, nil) }()
+	go func() {
+		n := 0
+		for c := range amux.HandshakeNotify() {
+			n++
+			if faults.DropEvery > 0 && n%faults.DropEvery == 0 {
+				c.Close()
+			}
+		}
+	}()
+	go func() {
+		for range rmux.HandshakeNotify() {
+		}
+	}()
 	return rfp, abp
 }
 
@@ -289,6 +375,8 @@ type LeakCase struct {
 	Subs    int    `json:"subs"`
 	FinalAt int    `json:"finalAt"` // every k-th update carries the FINAL trigger (0: never)
 	NoAcct  bool   `json:"noAcct"`  // every update also names a rating group without account / tariff (never answered)
+	// PeerFault: "" = the real servers; "slowcea" / "dropaftercea" = scripted peers with that connection-level fault
+	PeerFault string `json:"peerFault"`
 }
 
 func establishedTo(ports ...int) int {
@@ -330,11 +418,25 @@ func RunLeak(prefix, in, out string) error {
 	defer f.Close()
 	w := bufio.NewWriterSize(f, 1<<20)
 	defer w.Flush()
-	env, err := StartEnv(EnvOpts{})
+	faulty := len(cases) > 0 && cases[0].PeerFault != ""
+	env, err := StartEnv(EnvOpts{NoRating: faulty, NoAbmf: faulty})
 	if err != nil {
 		return err
 	}
 	defer env.Close()
+	if faulty {
+		pf := &peerFaults{}
+		switch cases[0].PeerFault {
+		case "slowcea":
+			pf.SlowEvery, pf.SlowDelay = 3, 2500*time.Millisecond
+		case "dropaftercea":
+			pf.DropEvery = 2
+		}
+		startScriptedPeersF(fmt.Sprintf("127.0.0.1:%d", env.RfPort), fmt.Sprintf("127.0.0.1:%d", env.AbPort), env.Pem, env.Key, pf)
+		if !WaitPort(env.RfPort, 5*time.Second) || !WaitPort(env.AbPort, 5*time.Second) {
+			return fmt.Errorf("scripted peers did not come up")
+		}
+	}
 	for ci, c := range cases {
 		env.ResetState(0)
 		refs := make([]string, c.Subs)
@@ -361,7 +463,7 @@ func RunLeak(prefix, in, out string) error {
 			s := i % c.Subs
 			final := c.FinalAt > 0 && (i+1)%c.FinalAt == 0
 			st := leakUpdate(env, supis[s], refs[s], i+2, final, c.NoAcct)
-			if st != 200 {
+			if st != 200 && !faulty {
 				bad++
 			}
 			if i < 10 || (i+1)%10 == 0 || i == c.N-1 {
@@ -372,7 +474,7 @@ func RunLeak(prefix, in, out string) error {
 		time.Sleep(400 * time.Millisecond)
 		samples = append(samples, map[string]any{"i": c.N, "conns": establishedTo(env.RfPort, env.AbPort), "tasks": runtime.NumGoroutine() - base})
 		b, _ := json.Marshal(map[string]any{"trace": c.ID, "seq": ci, "action": "leak", "n": c.N, "subs": c.Subs, "baseConns": baseConn,
-			"samples": samples, "failed": bad, "noAcct": c.NoAcct})
+			"samples": samples, "failed": bad, "noAcct": c.NoAcct || faulty, "peerFault": c.PeerFault})
 		_, _ = w.Write(b)
 		_ = w.WriteByte('\n')
 	}
